@@ -483,7 +483,7 @@ func (e *Engine) step(st *State, fr *Frame, instr ssa.Instruction) bool {
 		if xa, ok := x.(VAbs); ok && xa.Kind == "strslice" {
 			if is, ok := idx.(VSym); ok {
 				ss := xa.Data.(*StrSlice)
-				cell := e.newCell(st, sym(Select(ss.Arr, is.T, SStr)))
+				cell := e.newCell(st, sym(ss.at(is.T)))
 				st.wregs(fr)[in] = VPtr{Cell: cell}
 				return true
 			}
@@ -1148,15 +1148,25 @@ func (e *Engine) sliceOp(st *State, fr *Frame, in *ssa.Slice) bool {
 			hiConst = false
 		}
 	}
-	if xa, ok := x.(VAbs); ok && xa.Kind == "strslice" && (in.Low == nil || (loConst && lo == 0)) {
+	if xa, ok := x.(VAbs); ok && xa.Kind == "strslice" {
 		ss := xa.Data.(*StrSlice)
-		nl := ss.Len
-		if in.High != nil {
-			if hv, ok := e.operand(st, fr, in.High).(VSym); ok {
-				nl = hv.T
+		loT := IntLit(0)
+		if in.Low != nil {
+			if lv, ok := e.operand(st, fr, in.Low).(VSym); ok {
+				loT = lv.T
 			}
 		}
-		st.wregs(fr)[in] = VAbs{Kind: "strslice", ID: e.nextID(), Data: &StrSlice{Arr: ss.Arr, Len: nl, Nil: ss.Nil}}
+		hiT := ss.Len
+		if in.High != nil {
+			if hv, ok := e.operand(st, fr, in.High).(VSym); ok {
+				hiT = hv.T
+			}
+		}
+		off := loT
+		if ss.Off.S != "" {
+			off = Add(ss.Off, loT)
+		}
+		st.wregs(fr)[in] = VAbs{Kind: "strslice", ID: e.nextID(), Data: &StrSlice{Arr: ss.Arr, Len: Sub(hiT, loT), Nil: ss.Nil, Off: off}}
 		return true
 	}
 	switch p := x.(type) {
